@@ -436,6 +436,8 @@ package larking
 //@   assume at "return m, nil, nil" m != nil && len(m.vars) == gf(p, "depth")
 //@   assume at "return m, nil, nil" #2 len(m#2.vars) == gf(p, "depth")
 //@   assume at "if m, ps, err := next.search(toks[2:], verb); err == nil {" next != nil && gf(next, "depth") == gf(p, "depth")
+//@   assert at "if next, ok := p.segments[segment]; ok {" [edge-key C01] len(segment) == len(toks[0].val) + len(toks[1].val)
+//@        && segment[0] == toks[0].val[0] && (forall k :: 0 <= k && k < len(toks[1].val) ==> segment[len(toks[0].val) + k] == toks[1].val[k])
 //@   assert at "l := v.index(toks[1:]) + 1" [slash-guard C01] toks[0].typ == tokenSlash
 //@   ensures [found] err == nil ==> m != nil && len(m.vars) == gf(p, "depth") + len(ps)
 //@   loop 1 invariant -1 <= rangeindex && rangeindex < len(p.variables)
@@ -560,3 +562,31 @@ package larking
 //@   assert at "hd, err := s.pickMethodHandler(method.name)" [path-params-last C07] len(params) == len(pp) + len(queryParams)
 //@        && (forall x :: off(params) + len(queryParams) <= x && x < off(params) + len(params)
 //@              ==> same(at(params, x), at(pp, x - off(params) - len(queryParams) + off(pp))))
+
+//@ func (*path).addPath serves C01 C16 partial ghost
+//@   requires p != nil
+//@   assert at "if next, ok := p.segments[val]; ok {" [edge-key C01] len(val) == len(parent.val) + len(value.val)
+//@        && (forall k :: 0 <= k && k < len(parent.val) ==> val[k] == parent.val[k])
+//@        && (forall k :: 0 <= k && k < len(value.val) ==> val[len(parent.val) + k] == value.val[k])
+
+// ---------------------------------------------------------------------------
+// grpc.go: length-prefixed frame reader / writer (partial contracts: larking's
+// own slicing, allocation, conversion, nil and size obligations; the calls into
+// codecs, compressors, sync and stats are abstracted and listed).
+//@ func (*streamGRPC).isDone trusted pure
+//@ func (*streamGRPC).decompress trusted
+//@   modifies G$buf.
+//@ func (*streamGRPC).compress trusted
+//@   modifies G$buf.
+//@ func (*streamGRPC).SendHeader trusted
+//@   modifies F$streamGRPC.header, F$streamGRPC.sentHeader
+//@ func inPayload trusted pure
+//@ func outPayload trusted pure
+
+// m must be a proto.Message (a precondition on handlers, not on requests).
+//@ func (*streamGRPC).RecvMsg serves C06 C08 C09 partial index slice make nil assert ghost pre post
+//@   returns (err)
+//@   requires s != nil && s.r != nil && s.codec != nil && s.opts.maxReceiveMessageSize >= 0 && impl(m, "proto.Message")
+//@   witness verifWitnessGRPCRecv
+//@   assert at "if err := s.codec.Unmarshal(b, args); err != nil {" [size-limit C08] len(b) <= s.opts.maxReceiveMessageSize
+//@   ensures [truncated-frame-is-an-error C06] at "return err" #2 err != io.EOF
